@@ -25,11 +25,13 @@ import (
 // Unit "membership": 2..5 real RedisPubsubPeers (plus restarted incarnations)
 // share the E7 chaos pubsub and one FakeClock. A seeded history starts nodes,
 // stops them gracefully (Done closed -> Unregister), crashes them (silence),
+// makes their Publish calls fail (Redis outage),
 // restarts them under a new instance id, and delays / reorders / duplicates
 // messages. Then the faults stop: everything queued is delivered, the clock is
 // advanced by PeerEntryTimeout + the largest refresh interval with immediate
 // in-order delivery, and every live node's GetPeers() must be exactly the
-// addresses of the live nodes -- and stay so for one more refresh interval,
+// addresses of the live nodes -- and stay so for 2 x (PeerEntryTimeout + max
+// refresh interval) more,
 // after which a consumer that reloads GetPeers() on every change callback (as
 // the sharder does) must hold that list too.
 //
@@ -83,34 +85,82 @@ func c18Decode(msg string) (ok bool, action peerAction, address, id string, pani
 // passed through unchanged.
 type c18Clock struct {
 	*clockwork.FakeClock
-	mu       sync.Mutex
-	jitter   float64 // 0 <= jitter < 1
-	tickers  int
+	mu     sync.Mutex
+	jitter float64 // 0 <= jitter < 1
+	ticks  []*c18Ticker
+	loops  int // how often the refresh goroutine has (re-)entered its select
+}
+
+// c18Ticker follows one ticker of the refresh goroutine: when it fires next
+// (also after a Reset by the code under test) and -- for the refresh ticker --
+// how often the goroutine came back to its select (it calls Chan() there).
+type c18Ticker struct {
+	clockwork.Ticker
+	clk      *c18Clock
+	idx      int
 	interval time.Duration
-	started  time.Time
+	next     time.Time
+}
+
+func (t *c18Ticker) Chan() <-chan time.Time {
+	if t.idx == 0 {
+		t.clk.mu.Lock()
+		t.clk.loops++
+		t.clk.mu.Unlock()
+	}
+	return t.Ticker.Chan()
+}
+
+func (t *c18Ticker) Reset(d time.Duration) {
+	t.clk.mu.Lock()
+	t.interval = d
+	t.next = t.clk.FakeClock.Now().Add(d)
+	t.clk.mu.Unlock()
+	t.Ticker.Reset(d)
 }
 
 func (c *c18Clock) NewTicker(d time.Duration) clockwork.Ticker {
 	c.mu.Lock()
-	c.tickers++
-	if c.tickers == 1 {
-		if d >= c18Refresh && d < c18MaxRefresh {
-			d = c18Refresh + time.Duration(c.jitter*float64(c18MaxRefresh-c18Refresh))
-			if d >= c18MaxRefresh {
-				d = c18MaxRefresh - 1
-			}
+	defer c.mu.Unlock()
+	if len(c.ticks) == 0 && d >= c18Refresh && d < c18MaxRefresh {
+		d = c18Refresh + time.Duration(c.jitter*float64(c18MaxRefresh-c18Refresh))
+		if d >= c18MaxRefresh {
+			d = c18MaxRefresh - 1
 		}
-		c.interval = d
-		c.started = c.FakeClock.Now()
 	}
-	c.mu.Unlock()
-	return c.FakeClock.NewTicker(d)
+	t := &c18Ticker{Ticker: c.FakeClock.NewTicker(d), clk: c, idx: len(c.ticks), interval: d, next: c.FakeClock.Now().Add(d)}
+	c.ticks = append(c.ticks, t)
+	return t
 }
 
-func (c *c18Clock) ready() (int, time.Duration, time.Time) {
+// fired moves every ticker whose instant has come to its next instant and says
+// whether the refresh ticker / how many tickers handed a tick to the goroutine
+// (a clock step is shorter than any interval, and the goroutine has consumed
+// the previous tick, so each ticker hands over at most one per step).
+func (c *c18Clock) fired(now time.Time) (refresh bool, handed int) {
 	c.mu.Lock()
 	defer c.mu.Unlock()
-	return c.tickers, c.interval, c.started
+	for _, t := range c.ticks {
+		if !t.next.After(now) {
+			for !t.next.After(now) {
+				t.next = t.next.Add(t.interval)
+			}
+			handed++
+			if t.idx == 0 {
+				refresh = true
+			}
+		}
+	}
+	return
+}
+
+func (c *c18Clock) state() (tickers, loops int, refreshInterval time.Duration) {
+	c.mu.Lock()
+	defer c.mu.Unlock()
+	if len(c.ticks) > 0 {
+		refreshInterval = c.ticks[0].interval
+	}
+	return len(c.ticks), c.loops, refreshInterval
 }
 
 // ---- nodes ------------------------------------------------------------------------
@@ -126,8 +176,8 @@ type c18node struct {
 	state string // running | stopped | crashed
 
 	doneClosed bool
-	fires      int // refresh ticks the goroutine has been handed
 	expected   int // Publish calls the goroutine must have made
+	loopsDue   int // select (re-)entries the goroutine must have made
 	unsynced   bool
 
 	vmu      sync.Mutex
@@ -157,6 +207,7 @@ type c18world struct {
 	log   []c18event
 	kinds strings.Builder
 
+	pFail          float64     // probability that a Publish call made during the fault phase returns an error
 	expiries       []time.Time // instants at which some entry of some node lapses unless refreshed
 	unregBeforeReg int
 	lastUnreg      map[[2]int]bool // (to endpoint, from endpoint) has seen the Unregister
@@ -206,7 +257,18 @@ func c18PollFor(bound *time.Duration, cond func() bool) bool {
 func (w *c18world) start(slot int) {
 	n := &c18node{slot: slot, addr: w.addrs[slot], id: w.rng.Hex(8), state: "running", done: make(chan struct{})}
 	host := strings.TrimSuffix(strings.TrimPrefix(n.addr, "http://"), ":8081")
-	n.ep = w.bus.Endpoint()
+	// scripted Publish errors (only effective while the bus has faults on)
+	script := make([]bool, 48)
+	for k := range script {
+		script[k] = w.rng.Chance(w.pFail)
+	}
+	if w.pFail > 0 && w.rng.Chance(0.3) { // an outage: several refreshes in a row fail
+		from, ln := w.rng.Intn(6), w.rng.Range(2, 4)
+		for k := 0; k < ln; k++ {
+			script[from+k] = true
+		}
+	}
+	n.ep = w.bus.Endpoint(script)
 	n.clk = &c18Clock{FakeClock: w.clock}
 	switch w.rng.Intn(4) {
 	case 0:
@@ -253,7 +315,8 @@ func (w *c18world) start(slot int) {
 		return
 	}
 	// the refresh goroutine must have created its tickers before the clock moves again
-	if !c18Poll(func() bool { k, _, _ := n.clk.ready(); return k >= 2 }) {
+	n.loopsDue = 1
+	if !c18Poll(func() bool { k, l, _ := n.clk.state(); return k >= 2 && l >= 1 }) {
 		w.run.Inconclusive("harness: refresh goroutine did not create its tickers")
 		w.aborted = true
 		return
@@ -280,17 +343,19 @@ func (w *c18world) settle() {
 			continue
 		}
 		if !n.doneClosed {
-			_, iv, st := n.clk.ready()
-			if iv > 0 {
-				total := int(now.Sub(st) / iv)
-				if total > n.fires { // one Advance is shorter than the interval: at most one tick is handed over
-					n.fires = total
-					n.expected++
-				}
+			refresh, handed := n.clk.fired(now)
+			if refresh {
+				n.expected++
 			}
+			n.loopsDue += handed
 		}
-		want := n.expected
-		if !c18Poll(func() bool { return w.bus.Attempts(n.ep.idx) >= want }) {
+		want, loops := n.expected, n.loopsDue
+		// published AND back in its select: whatever the code does after Publish
+		// (e.g. Reset its ticker) has then happened at this instant of the fake clock
+		if !c18Poll(func() bool {
+			_, l, _ := n.clk.state()
+			return w.bus.Attempts(n.ep.idx) >= want && (n.doneClosed || l >= loops)
+		}) {
 			n.unsynced = true
 			c18RealWait = 20 * time.Millisecond
 			w.note("harness: node did not publish within the real-time bound after its ticker fired / Done closed", n, "")
@@ -360,9 +425,9 @@ func (w *c18world) live() []*c18node {
 func (w *c18world) witness(extra ...any) map[string]any {
 	var nodes []map[string]any
 	for _, n := range w.nodes {
-		_, iv, _ := n.clk.ready()
+		_, _, iv := n.clk.state()
 		peers, _ := n.p.GetPeers()
-		nodes = append(nodes, map[string]any{"address": n.addr, "instance_id": n.id, "state": n.state, "refresh_interval_ns": int64(iv), "GetPeers_now": peers})
+		nodes = append(nodes, map[string]any{"address": n.addr, "instance_id": n.id, "state": n.state, "refresh_interval_ns_now": int64(iv), "GetPeers_now": peers})
 	}
 	m := map[string]any{
 		"events": w.log, "nodes": nodes, "t_ms_now": w.ms(),
@@ -494,6 +559,8 @@ func c18membership(run *verifkit.Run, i int, rng *verifkit.Rand) {
 	}()
 
 	// --- fault phase ---------------------------------------------------------------
+	w.pFail = verifkit.Pick(rng, 0.0, 0.15, 0.35, 0.6)
+	w.bus.SetFaults(true)
 	q := verifkit.Pick(rng, 0.15, 0.4, 0.8, 1.0)
 	dup := verifkit.Pick(rng, 0.0, 0.1, 0.3)
 	held := map[int]int{} // endpoint -> held until step
@@ -573,7 +640,8 @@ func c18membership(run *verifkit.Run, i int, rng *verifkit.Rand) {
 	}
 
 	// --- faults stop -----------------------------------------------------------------
-	w.note("faults-stop", nil, fmt.Sprintf("%d deliveries still queued", w.bus.Pending()))
+	w.bus.SetFaults(false)
+	w.note("faults-stop", nil, fmt.Sprintf("%d deliveries still queued, %d publish errors injected so far", w.bus.Pending(), w.bus.PublishErrors))
 	w.bus.DeliverAll(rng, dup) // the backlog arrives in any order, duplicates included
 	end := w.clock.Now().Add(PeerEntryTimeout + c18MaxRefresh)
 	for w.clock.Now().Before(end) {
@@ -600,7 +668,8 @@ func c18membership(run *verifkit.Run, i int, rng *verifkit.Rand) {
 		run.Count("getpeers_checked", 1)
 	}
 	// --- and it stays that way; the change-callback consumer catches up -----------
-	end = w.clock.Now().Add(c18MaxRefresh)
+	// long enough to see a node flap whose refresh period has grown beyond the entry timeout
+	end = w.clock.Now().Add(2 * (PeerEntryTimeout + c18MaxRefresh))
 	for ok && w.clock.Now().Before(end) {
 		d := time.Duration(verifkit.Pick(rng, 300, 700, 1000)) * time.Millisecond
 		if rem := end.Sub(w.clock.Now()); d > rem {
@@ -645,6 +714,7 @@ func c18membership(run *verifkit.Run, i int, rng *verifkit.Rand) {
 	run.Count("messages_delivered", int64(w.bus.Delivered))
 	run.Count("messages_out_of_order", int64(w.bus.Reordered))
 	run.Count("messages_duplicated", int64(w.bus.Duplicated))
+	run.Count("publish_errors_injected", int64(w.bus.PublishErrors))
 	run.Count("register_after_unregister_of_gone_node", int64(w.unregBeforeReg))
 	run.Count("node_incarnations", int64(len(w.nodes)))
 	ks := w.kinds.String()
@@ -751,7 +821,7 @@ func c18codec(run *verifkit.Run, i int, rng *verifkit.Rand) {
 func TestVerif_C18(t *testing.T) {
 	run := verifkit.Start(t, "C18", "membership")
 	defer run.Finish()
-	run.Rule("membership: seeded histories over 2..5 node addresses (IPv4 / bracketed IPv6 / host names) of real RedisPubsubPeers on one FakeClock over the E7 chaos pubsub: 12..45 steps of {start, graceful stop, crash, restart under a new instance id, hold a node's inbound messages}, clock steps of 0.1..1 s (15% aimed at an entry's expiry instant +-1ns), per-step delivery of a random subset of the queued messages in random order with duplicates; refresh jitter per node chosen by the PRNG in [0,20%); then faults stop, backlog delivered in random order, clock advanced PeerEntryTimeout+max refresh interval with immediate delivery, GetPeers() of every live node compared with the live set, again at every step of one more refresh interval, then the list read by a change-callback consumer. Non-trivial = history with a graceful stop or crash and at least one out-of-order delivery; distinct = (event-kind sequence, live count, out-of-order/duplicate/late-register buckets). codec: marshal->unmarshal over generated address/id strings (realistic URLs and hex ids, empty, commas, leading R/U, control bytes, non-UTF8, long); non-trivial = a field is empty or contains a comma")
+	run.Rule("membership: seeded histories over 2..5 node addresses (IPv4 / bracketed IPv6 / host names) of real RedisPubsubPeers on one FakeClock over the E7 chaos pubsub: 12..45 steps of {start, graceful stop, crash, restart under a new instance id, hold a node's inbound messages}, per-node scripted Publish errors (probability 0/0.15/0.35/0.6 per call, plus outages of 2-4 consecutive calls) while faults are on, clock steps of 0.1..1 s (15% aimed at an entry's expiry instant +-1ns), per-step delivery of a random subset of the queued messages in random order with duplicates; refresh jitter per node chosen by the PRNG in [0,20%); then faults stop, backlog delivered in random order, clock advanced PeerEntryTimeout+max refresh interval with immediate delivery, GetPeers() of every live node compared with the live set, again at every step of a further 2x(PeerEntryTimeout+max refresh interval), then the list read by a change-callback consumer. Non-trivial = history with a graceful stop or crash and at least one out-of-order delivery; distinct = (event-kind sequence, live count, out-of-order/duplicate/late-register buckets). codec: marshal->unmarshal over generated address/id strings (realistic URLs and hex ids, empty, commas, leading R/U, control bytes, non-UTF8, long); non-trivial = a field is empty or contains a comma")
 	run.Assume("the go-redis transport is replaced by the E7 chaos pubsub (no Redis server in the sandbox); deliveries to one node are serialised")
 	run.Assume("clockwork.FakeClock is the only time source: the node's TTL map is moved onto it right after Start and the own entry re-stamped; the refresh jitter comes from the check's PRNG instead of math/rand")
 	run.Assume("live and publishing = started, Done not closed, not silenced; convergence is measured from the moment faults stop and the backlog has been delivered")
